@@ -412,3 +412,32 @@ def duplicate_branch_lint(repo, rep, rule, modules):
     if n:
         rep.ok(rule, f"ethosu/vela/{modules[0]}.py", f"{n} if/else statements in {len(modules)} modules have distinct branches", "")
     return n
+
+
+def pair_unpack_lint(repo, rep, rule, modules):
+    """`a, b = something_xy` / `..._wh` / `..._hw`: the two targets, when their names carry an axis, follow the order the
+    source's name states (x / w first for _xy and _wh, h first for _hw)."""
+    import re as _re
+
+    from ..roles import name_axis
+
+    n = 0
+    for mname in modules:
+        m = repo.mod(mname)
+        for q, fn in m.functions.items():
+            for st in ast.walk(fn):
+                if not (isinstance(st, ast.Assign) and isinstance(st.targets[0], ast.Tuple) and len(st.targets[0].elts) == 2):
+                    continue
+                src = str(norm(st.value)).replace("()", "")
+                mm = _re.search(r"(?:_|\\b)(xy|wh|hw)$", src)
+                if not mm:
+                    continue
+                want = ["H", "W"] if mm.group(1) == "hw" else ["W", "H"]
+                got = [name_axis(norm(e)) if isinstance(e, ast.Name) else None for e in st.targets[0].elts]
+                if all(g is None for g in got):
+                    continue
+                n += 1
+                bad = [(str(norm(e)), g, w) for e, g, w in zip(st.targets[0].elts, got, want) if g is not None and g != w]
+                rep.check(not bad, rule, f"ethosu/vela/{mname}.py:{q}", f"`{str(norm(st))[:70]}` unpacks {mm.group(1)} in that order",
+                          "; ".join(f"`{nm}` ({g}) takes the {w} component" for nm, g, w in bad))
+    return n
